@@ -100,8 +100,10 @@ struct Fixture {
         handles_taken.fetch_add(1, std::memory_order_relaxed);
         int idx = 0;
         bool stop = false;
-        while (it != h->end()) {
-            tv.seen.push_back(Val<T>::id(*it));
+        // the iterator interface is used in all its spellings (pre/post increment, both comparison directions, * and ->)
+        while ((idx % 2) ? (h->end() != it) : (it != h->end())) {
+            if (it == h->end() || h->end() == it) vrf::violation("oracle:iterator_comparisons_disagree", "{}");
+            tv.seen.push_back((idx % 3 == 1) ? Val<T>::id(*(it.operator->())) : Val<T>::id(*it));
             if (idx == a.arg) {
                 for (int p = 0; p < a.pause; p++) vrf::hyield();
                 // re-read the element after the pause: it must still be intact
@@ -111,7 +113,13 @@ struct Fixture {
                 stop = true;
                 break;
             }
-            ++it;
+            if (idx % 2) {
+                auto old = it++;
+                if (old == h->end()) vrf::violation("oracle:post_increment_returned_end", "{}");
+                (void)Val<T>::id(*old);  // the value returned by post-increment still designates the element just visited
+            } else {
+                ++it;
+            }
             idx++;
             vrf::user_point();
         }
@@ -190,6 +198,45 @@ struct Fixture {
                     live_handles.fetch_sub(1, std::memory_order_relaxed);
                     break;
                 }
+                case 'X': {
+                    // an eraser that survives allocator failures the way a client would: if erase() throws bad_alloc it
+                    // erases the following element (if any) and then retries the failed erase through the same iterator
+                    WH h(g->lock_write());
+                    auto it = a.via_star ? (*h).begin() : h->begin();
+                    live_handles.fetch_add(1, std::memory_order_relaxed);
+                    handles_taken.fetch_add(1, std::memory_order_relaxed);
+                    for (int skip = 0; skip < a.arg && it != h->end(); skip++) ++it;
+                    if (it != h->end()) {
+                        uint32_t id = Val<T>::id(*it);
+                        MutEvent ev{tid, 'E', id, vrf::now(), 0, true};
+                        as.fail_uid.store(vrf::ctx().uid, std::memory_order_relaxed);
+                        as.fail_countdown.store(a.pause, std::memory_order_relaxed);
+                        bool failed = false;
+                        try {
+                            (void)h->erase(it);
+                        }
+                        catch (const std::bad_alloc&) {
+                            failed = true;
+                        }
+                        as.fail_countdown.store(0, std::memory_order_relaxed);
+                        if (failed) {
+                            auto nx = it;
+                            ++nx;
+                            if (nx != h->end()) {
+                                MutEvent ev2{tid, 'E', Val<T>::id(*nx), vrf::now(), 0, true};
+                                (void)h->erase(nx);
+                                ev2.ret = vrf::now();
+                                muts[tid].push_back(ev2);
+                            }
+                            vrf::user_point();
+                            (void)h->erase(it);  // the retry
+                        }
+                        ev.ret = vrf::now();
+                        muts[tid].push_back(ev);
+                    }
+                    live_handles.fetch_sub(1, std::memory_order_relaxed);
+                    break;
+                }
                 default: vrf::harness_error("bad action");
             }
             if (kept && --keep_for <= 0) {
@@ -216,6 +263,7 @@ struct Fixture {
 // random program: scripts for nthreads threads
 struct Program {
     int initial;
+    bool alloc_faults = false;  // contains 'X' actions (allocator failures are injected: leak accounting is not judged)
     std::vector<std::vector<Act>> scripts;
     std::string json() const
     {
@@ -238,7 +286,7 @@ struct Program {
 };
 
 // reclamation-focused family: a parked traversal, erasers aiming at what it stands on, several short-lived and kept handles
-inline Program gen_reclaim_program(vrf::Rng& rng, uint32_t first_new_id)
+inline Program gen_reclaim_program(vrf::Rng& rng, uint32_t first_new_id, bool alloc_faults_allowed = false)
 {
     Program p;
     p.initial = static_cast<int>(rng.range(2, 5));
@@ -256,6 +304,11 @@ inline Program gen_reclaim_program(vrf::Rng& rng, uint32_t first_new_id)
         if (k == 3 && park >= 1) eraser.push_back(Act{'E', park, 0, false});
     }
     if (rng.chance(40)) eraser.push_back(Act{rng.chance(50) ? 'F' : 'b', static_cast<int>(next++), 0, false});
+    if (alloc_faults_allowed && rng.chance(30)) {
+        // position (0..), and which allocation from the start of erase() fails (1: the log record)
+        eraser.insert(eraser.begin(), Act{'X', static_cast<int>(rng.range(0, std::max(0, p.initial - 2))), static_cast<int>(rng.range(1, 2)), rng.chance(35)});
+        p.alloc_faults = true;
+    }
     p.scripts.push_back(eraser);
     int extra = static_cast<int>(rng.range(1, 3));
     for (int t = 0; t < extra; t++) {
@@ -272,9 +325,9 @@ inline Program gen_reclaim_program(vrf::Rng& rng, uint32_t first_new_id)
     return p;
 }
 
-inline Program gen_program(vrf::Rng& rng, uint32_t first_new_id, bool big = false)
+inline Program gen_program(vrf::Rng& rng, uint32_t first_new_id, bool big = false, bool alloc_faults_allowed = false)
 {
-    if (!big && rng.chance(45)) return gen_reclaim_program(rng, first_new_id);
+    if (!big && rng.chance(45)) return gen_reclaim_program(rng, first_new_id, alloc_faults_allowed);
     Program p;
     p.initial = static_cast<int>(rng.range(0, big ? 8 : 5));
     int nthreads = static_cast<int>(rng.range(2, big ? 6 : 5));
